@@ -379,7 +379,7 @@ class Engine:
                "states": sim.state_hashes, "faults": {},
                    "probes": {}, "nontrivial": False}
             for k_ in ("timeout_fired", "timer_fired_early", "stall",
-                       "starve", "preempt", "pct_change"):
+                       "starve", "preempt", "pct_change", "gc"):
                 if sim.counters.get(k_):
                     out["faults"][k_] = sim.counters[k_]
             h = hashlib.blake2b(repr(sim.log).encode(), digest_size=8)
